@@ -116,6 +116,7 @@ static struct cat_command_group *groups[MAXG];
 static struct cat_command_group **group_ptrs;
 static int ngroups, ncmds;
 static int group_disable[MAXG], group_first[MAXG], group_n[MAXG];
+static char *group_name[MAXG];
 static struct hcmd cmds[MAXC];
 static size_t bufsize; static long usize; /* usize < 0: shared */
 static uint8_t *buf_alloc, *ubuf_alloc, *buf, *ubuf;
@@ -619,6 +620,29 @@ static void do_api(const char *op, char **tok, int ntok)
                 snprintf(args, sizeof args, "%d", f);
                 begin_call("processed", args);
                 end_call((long)cmd_index(cat_get_processed_command(at, (cat_fsm_type)f)), 0);
+        } else if (!strcmp(op, "scmd") || !strcmp(op, "sgrp") || !strcmp(op, "svar")) {
+                /* the three lookups by name: scmd <name> | sgrp <name> | svar <cmd> <name> */
+                int isvar = !strcmp(op, "svar"); size_t l; int c = isvar ? atoi(tok[0]) : -1;
+                uint8_t *nm = unhex(tok[isvar ? 1 : 0], &l);
+                evlen = 0; ev_count = 0;
+                if (isvar) ev_printf("%d%s", c, l ? "," : "");
+                for (size_t i = 0; i < l; i++) ev_printf(i ? ",%u" : "%u", nm[i]);
+                char *argcopy = strdup(evlen ? evbuf : "");
+                long r = -1;
+                if (!strcmp(op, "scmd")) { begin_call("search_cmd", argcopy); r = cmd_index(cat_search_command_by_name(at, (char *)nm)); }
+                else if (!strcmp(op, "sgrp")) {
+                        begin_call("search_grp", argcopy);
+                        const struct cat_command_group *g = cat_search_command_group_by_name(at, (char *)nm);
+                        for (int i = 0; i < ngroups; i++) if (groups[i] == g) r = i;
+                } else {
+                        if (c < 0 || c >= ncmds) die("svar: bad cmd");
+                        begin_call("search_var", argcopy);
+                        const struct cat_variable *v = cat_search_variable_by_name(at, cmds[c].c, (char *)nm);
+                        int vi = -1; if (v) var_flat(v, NULL, &vi);
+                        r = vi;
+                }
+                end_call(r, 0);
+                free(argcopy); free(nm);
         } else if (!strcmp(op, "setmem")) {
                 int c = atoi(tok[0]), v = atoi(tok[1]); size_t n;
                 if (c < 0 || c >= ncmds || v < 0 || v >= cmds[c].nvars) die("setmem: bad var");
@@ -703,7 +727,7 @@ static void teardown(void)
                 free(cmds[i].name); free(cmds[i].desc);
                 free((void *)cmds[i].c->var);
         }
-        for (int g = 0; g < ngroups; g++) { free((void *)groups[g]->cmd); free(groups[g]); groups[g] = NULL; }
+        for (int g = 0; g < ngroups; g++) { free((void *)groups[g]->cmd); free(groups[g]); groups[g] = NULL; free(group_name[g]); group_name[g] = NULL; }
         free(group_ptrs); group_ptrs = NULL;
         free(buf_alloc); buf_alloc = NULL; free(ubuf_alloc); ubuf_alloc = NULL;
         free(at); at = NULL;
@@ -723,7 +747,12 @@ static void emit_cfg(void)
         fprintf(out, "{\"e\":\"cfg\",\"sid\":%ld,\"qcap\":%d,\"acap\":%zu,\"ucap\":%zu,\"shared\":%s,\"mutex\":%s,\"step\":%s,\"fill\":%d,\"groups\":[",
                 sid, (int)CAT_UNSOLICITED_CMD_BUFFER_SIZE, acap, ucap, usize < 0 ? "true" : "false", use_mutex ? "true" : "false",
                 grain_step ? "true" : "false", fill_byte);
-        for (int g = 0; g < ngroups; g++) fprintf(out, "%s{\"disable\":%s}", g ? "," : "", group_disable[g] ? "true" : "false");
+        for (int g = 0; g < ngroups; g++) {
+                evlen = 0;
+                if (group_name[g]) ev_bytes((uint8_t *)group_name[g], strlen(group_name[g])); else ev_printf("[]");
+                fprintf(out, "%s{\"disable\":%s,\"hasname\":%s,\"name\":%s}", g ? "," : "", group_disable[g] ? "true" : "false", group_name[g] ? "true" : "false", evbuf);
+        }
+        evlen = 0;
         fprintf(out, "],\"cmds\":[");
         for (int i = 0; i < ncmds; i++) {
                 struct hcmd *h = &cmds[i];
@@ -758,7 +787,7 @@ static void finish_cfg(void)
                 if (group_n[g] == 0) die("empty group");
                 struct cat_command *arr = calloc((size_t)group_n[g], sizeof *arr);
                 groups[g] = calloc(1, sizeof *groups[g]);
-                groups[g]->name = NULL; groups[g]->cmd = arr; groups[g]->cmd_num = (size_t)group_n[g]; groups[g]->disable = group_disable[g] != 0;
+                groups[g]->name = group_name[g]; groups[g]->cmd = arr; groups[g]->cmd_num = (size_t)group_n[g]; groups[g]->disable = group_disable[g] != 0;
                 group_ptrs[g] = groups[g];
                 for (int k = 0; k < group_n[g]; k++) {
                         struct hcmd *h = &cmds[group_first[g] + k];
@@ -838,7 +867,12 @@ static void process_line(char *line)
                 else if (!strcmp(op, "grain")) { grain_step = !strcmp(tok[1], "step"); compact = !strcmp(tok[1], "compact"); }
                 else if (!strcmp(op, "auto")) snprintf(autoq, sizeof autoq, "%s", n > 1 ? tok[1] : "");
                 else if (!strcmp(op, "hdef")) { hdef[0] = atoi(tok[1]); hdef[1] = atoi(tok[2]); hdef[2] = atoi(tok[3]); hdef[3] = atoi(tok[4]); }
-                else if (!strcmp(op, "group")) { if (ngroups >= MAXG) die("too many groups"); group_disable[ngroups] = atoi(tok[1]); group_first[ngroups] = ncmds; group_n[ngroups] = 0; ngroups++; }
+                else if (!strcmp(op, "group")) {
+                        if (ngroups >= MAXG) die("too many groups");
+                        size_t l; group_disable[ngroups] = atoi(tok[1]); group_first[ngroups] = ncmds; group_n[ngroups] = 0;
+                        group_name[ngroups] = (n > 2 && strcmp(tok[2], "-")) ? (!strcmp(tok[2], "E") ? calloc(1, 1) : (char *)unhex(tok[2], &l)) : NULL;
+                        ngroups++;
+                }
                 else if (!strcmp(op, "cmd")) {
                         if (ngroups == 0) die("cmd before group");
                         if (ncmds >= MAXC) die("too many cmds");
